@@ -218,9 +218,9 @@ theorem pool_deadlock_free (cfg : Cfg) (hN : 1 ≤ cfg.N) (s : Sh × (Tid → Lo
 
 /-- 2 workers, 3 tasks: worker 1 does all the work, worker 2 only starts up and shuts down -/
 def exampleSchedule : List (Tid × Nat) :=
-  let one : List (Tid × Nat) := List.replicate 10 (0, 0) ++ List.replicate 11 (1, 0)
-  one ++ one ++ one ++ List.replicate 7 (0, 0) ++ List.replicate 5 (1, 0) ++ List.replicate 5 (2, 0) ++
-    List.replicate 4 (0, 0)
+  let one : List (Tid × Nat) := List.replicate 13 (0, 0) ++ List.replicate 13 (1, 0)
+  one ++ one ++ one ++ List.replicate 6 (0, 0) ++ List.replicate 5 (1, 0) ++ List.replicate 5 (2, 0) ++
+    List.replicate 3 (0, 0)
 
 def exampleCfg : Pool.Cfg := { N := 2, K := 3, startOf := fun i => 2 * i }
 
